@@ -64,9 +64,20 @@ func c20Gen(r *rand.Rand, constantPrices bool) c20Journal {
 		j.Dirs = append(j.Dirs, gen.Dir{Kind: gen.KPrice, Date: first, Com: cm, Tgt: v, Price: fmt.Sprint(p)})
 	}
 	held := map[string]bool{}
+	// a third of the portfolios are empty for the first one to three journal days (only
+	// opens and prices there): periods in which nothing is held and nothing flows
+	lead := 0
+	if r.Intn(3) == 0 && len(dates) > 5 {
+		lead = 1 + r.Intn(3)
+	}
 	for di, d := range dates {
+		if di < lead {
+			// the journal period starts with the first transaction: one that does not touch the portfolio
+			j.Dirs = append(j.Dirs, gen.Dir{Kind: gen.KTxn, Date: d, Desc: "outside the portfolio", Bookings: []gen.Booking{{Credit: "Income:Salary", Debit: "Expenses:Living", Qty: fmt.Sprint(1 + r.Intn(90)), Com: v}}})
+			continue
+		}
 		switch {
-		case di == 0 || r.Intn(4) == 0:
+		case di == lead || r.Intn(4) == 0:
 			// external deposit (or withdrawal of a small amount once something is held)
 			cm := coms[r.Intn(len(coms))]
 			acc := al[r.Intn(len(al))]
@@ -75,7 +86,7 @@ func c20Gen(r *rand.Rand, constantPrices bool) c20Journal {
 			}
 			amt := fmt.Sprintf("%d", 500+r.Intn(5000))
 			bk := gen.Booking{Credit: ext[r.Intn(2)], Debit: acc, Qty: amt, Com: cm}
-			if di > 0 && held[cm] && r.Intn(3) == 0 {
+			if di > lead && held[cm] && r.Intn(3) == 0 {
 				bk = gen.Booking{Credit: acc, Debit: ext[2], Qty: fmt.Sprintf("%d", 1+r.Intn(200)), Com: cm}
 			}
 			held[cm] = true
@@ -681,7 +692,7 @@ func (k *c20) returns(c *core.Ctx, i int, dir string, w c20Journal, r *rand.Rand
 		case !flows:
 			if math.Abs(vStart) < 1e-9 {
 				// nothing held (or exactly zero net): only "no change" is certain when both are zero
-				if math.Abs(vEnd) < 1e-9 && math.Abs(g.val) > 0.0501 {
+				if math.Abs(vEnd) < 1e-9 && (math.IsNaN(g.val) || math.Abs(g.val) > 0.0501) {
 					fail("returns-empty-period", fmt.Sprintf("period ending %s: nothing is held and nothing flows but the return is %s%%", p.End, g.raw))
 					return
 				}
